@@ -1,6 +1,7 @@
 package mgrsim
 
 import (
+	"os"
 	"encoding/binary"
 	"encoding/json"
 	"fmt"
@@ -322,6 +323,28 @@ func (s *Sim) exec(st stepRef) {
 					}
 				}
 			}
+		}
+		if op.K == "ImportBad" {
+			// a corrupt upload: garbage, an empty file, or a capture cut inside a packet record
+			name := fmt.Sprintf("bad%03d.pcap", op.ID)
+			var content []byte
+			switch op.V {
+			case 0:
+				content = []byte("this is not a capture file\n")
+			case 1:
+				content = nil
+			default:
+				if len(s.capt.Names) > 0 {
+					b, _ := os.ReadFile(s.scratch + "/src/" + s.capt.Names[0])
+					if len(b) > 40 {
+						content = b[:len(b)-7]
+					}
+				}
+			}
+			os.WriteFile(s.dirs.Pcap+name, content, 0o644)
+			op.K = "Import"
+			op.Convs = []string{name}
+			s.res.Count("fault_corrupt_capture", 1)
 		}
 		s.or.beforeAPI(op)
 		r := s.call(st.c, op)
